@@ -17,7 +17,7 @@
 (* C12's names (run, step, outcome, ..) must not shadow C16.Model's: C12 is loaded FIRST and always written with its full name *)
 From RM Require C12.Model C12.Proofs.
 From RM Require Import C09.Grammar C10.Model C16.Model C16.Proofs C16.Rehit C16.Driver C16.Shared C16.SharedProofs C16.SharedProofs2 C16.Refine Gen.C16Ops.
-From RM Require C09.Model C10.Stream C16.Stream C16.StreamProofs C16.StreamInst C16.StreamProofs2 C16.StreamPins C16.StaleFlag C16.Raii C16.RaiiProofs C16.StreamRefine C16.LocateSrc Gen.C16Locate C16.StreamRaii C16.StreamRaiiProofs C16.InProcess.
+From RM Require C09.Model C10.Stream C16.Stream C16.StreamProofs C16.StreamInst C16.StreamProofs2 C16.StreamPins C16.StaleFlag C16.Raii C16.RaiiProofs C16.StreamRefine C16.LocateSrc Gen.C16Locate C16.StreamRaii C16.StreamRaiiProofs C16.InProcess C16.FileFetch C16.FileFetchProofs C16.FileFetchSrc.
 Open Scope Z_scope.
 
 Section Statements.
@@ -797,6 +797,68 @@ Example c16_nonvacuous_process :
   let pr := RM.C16.InProcess.process table parse_drv (fun _ => false) 7 [] [srv] (fun _ => evs) c sched 0%nat ex_sfs in
   C12.Model.supplier_calls (C12.Model.run c sched) 0%nat = 1%nat /\
   fst pr = [5] /\ cache (snd pr) 7 = Some (File (cached_form ex_sbody [104])) /\ tmp (snd pr) = [].
+Proof. vm_compute. repeat split; reflexivity. Qed.
+
+(* The OTHER download path of http.rs — fetch_lookup / HttpSymbolSupplier::locate_file (native binaries, extra debug info): same
+   create_cache_file, same tmp directory, same cache tree; no parse, no note, caching not optional, persist_noclobber (C16/FileFetch.v;
+   second pass of round 5: until now this path was judged by the oracle only).  All four statements: every cache path p, every initial
+   file system, every set of local hits, every server list with arbitrary outcomes of the file-system calls, EVERY event list (EDrop
+   anywhere).
+   A regular file appears or changes anywhere in the cache only at p, only where NOTHING was before, only after a non-error head and the
+   clean end of the whole body; it is EXACTLY the bytes of that body, and the lookup answered with the download. *)
+Module FF := RM.C16.FileFetch.
+Module FP := RM.C16.FileFetchProofs.
+Theorem c16_file_entry_only_from_whole_body : forall p f locals ss evs q c,
+  cache (FF.q_fs (FF.locate_file p f locals ss evs)) q = Some (File c) -> cache f q <> Some (File c) ->
+  q = p /\ cache f p = None /\
+  exists pre code chunks post,
+    evs = pre ++ EHead code :: map EChunk chunks ++ EEof :: post /\ code < 400 /\ c = concat chunks /\
+    exists i, FF.q_l (FF.locate_file p f locals ss evs) = FF.QDone (FF.QFetched i).
+Proof. exact FP.file_entry_only_whole_body. Qed.
+Print Assumptions c16_file_entry_only_from_whole_body.
+
+(* tmp is as before after every finished lookup (found locally, downloaded, failed at any point of any server, dropped anywhere);
+   while pending it holds at most the one in-flight file, whose content is exactly what has been received *)
+Theorem c16_file_no_stray_tmp : forall p f locals ss evs,
+  let s := FF.locate_file p f locals ss evs in
+  (FP.q_finished s -> tmp (FF.q_fs s) = tmp f) /\
+  (tmp (FF.q_fs s) = tmp f \/ exists n got, tmp (FF.q_fs s) = (n, got) :: tmp f /\ n = fresh (tmp f)).
+Proof. exact FP.file_no_stray_tmp. Qed.
+Print Assumptions c16_file_no_stray_tmp.
+
+(* every lookup that does not end in a download leaves the WHOLE cache as it was *)
+Theorem c16_file_failed_leaves_cache : forall p f locals ss evs,
+  ~ FP.q_downloaded (FF.locate_file p f locals ss evs) -> cache_eq (FF.q_fs (FF.locate_file p f locals ss evs)) f.
+Proof. exact FP.file_failed_leaves_cache. Qed.
+Print Assumptions c16_file_failed_leaves_cache.
+
+(* whatever is at the path before the lookup (another process's file, a directory) is still there afterwards: never removed, never replaced *)
+Theorem c16_file_existing_never_replaced : forall p f locals ss evs x,
+  cache f p = Some x -> cache (FF.q_fs (FF.locate_file p f locals ss evs)) p = Some x.
+Proof. exact FP.file_existing_never_replaced. Qed.
+Print Assumptions c16_file_existing_never_replaced.
+
+(* the statement list of `fn fetch_lookup` as translate/c16_fsops.py extracts it (send + error_for_status `?`; create_cache_file `?`;
+   `while let Some(chunk) = res.chunk().await..? { temp.write_all(..)?; }`; `temp.persist_noclobber(..)?`; Ok) is the list the transitions
+   of FileFetch.qstep were written for (RM.C16.FileFetchSrc.qstep_shape) *)
+Theorem c16_file_steps_are_source : RM.Gen.C16Ops.lookup_steps = RM.C16.FileFetchSrc.qstep_shape.
+Proof. exact RM.C16.FileFetchSrc.lookup_steps_as_modelled. Qed.
+Print Assumptions c16_file_steps_are_source.
+
+(* non-vacuity: server 3 answers 404, server 5 sends the body in two chunks: entry = exactly the bytes, tmp empty; dropped after the
+   first chunk (the temp file then holds it): nothing left; a directory at the path: persist_noclobber fails, NotFound, the directory stays *)
+Example c16_nonvacuous_file :
+  let ss := [mkserver 3 [] ex_senv; mkserver 5 [] ex_senv] in
+  let evs := [EHead 404; EHead 200; EChunk [1; 2; 3]; EChunk [4; 5]; EEof] in
+  let s := FF.locate_file 7 ex_sfs [false] ss evs in
+  let mid := FF.locate_file 7 ex_sfs [false] ss (firstn 3 evs) in
+  let drp := FF.locate_file 7 ex_sfs [false] ss (firstn 3 evs ++ [EDrop]) in
+  let fd := mkfs (fun q => if q =? 7 then Some Dir else None) (fun _ => true) [] in
+  let sd := FF.locate_file 7 fd [] ss evs in
+  FF.q_l s = FF.QDone (FF.QFetched 5) /\ cache (FF.q_fs s) 7 = Some (File [1; 2; 3; 4; 5]) /\ tmp (FF.q_fs s) = [] /\ FF.q_log s = [3; 5] /\
+  tmp (FF.q_fs mid) = [(0, [1; 2; 3])] /\ cache (FF.q_fs mid) 7 = None /\
+  FF.q_l drp = FF.QDropped /\ tmp (FF.q_fs drp) = [] /\ cache (FF.q_fs drp) 7 = None /\
+  FF.q_l sd = FF.QDone FF.QNotFound /\ cache (FF.q_fs sd) 7 = Some Dir /\ tmp (FF.q_fs sd) = [].
 Proof. vm_compute. repeat split; reflexivity. Qed.
 
 (* The class of seeded/C16-7 stated on the model (C16/StaleFlag.v: the loop with a fast path `if consumed == 0 { continue; }`
